@@ -113,13 +113,13 @@ Definition restore_prio (c : cfg) (x : xstate) (q : N) (pc : pcfg) : xoutcome :=
     | pv, pm =>
       (* StringToInt(priority_str, &uint8) succeeds for 0..255 *)
       let o1 := match pv with
-                | Some v => if v <? 256 then xlift x (prio_static c (x_s x) q v) else XOk x RUnit
+                | Some v => if v <? U8_LIMIT then xlift x (prio_static c (x_s x) q v) else XOk x RUnit
                 | None => XOk x RUnit end in
       match o1 with
       | XDangling => XDangling
       | XOk x1 _ =>
         match pm with
-        | Some m => if (m <? 256) && (m =? PRIORITY_MODE_INHERIT)
+        | Some m => if (m <? U8_LIMIT) && (m =? PRIORITY_MODE_INHERIT)
                     then xlift x1 (prio_inherit c (x_s x1) q) else XOk x1 RUnit
         | None => XOk x1 RUnit
         end
@@ -141,7 +141,7 @@ Fixpoint restore_loop (xc : xcfg) (ps : list N) (x : xstate) : option xstate :=
         match x_puni x1 q with
         | None => restore_loop xc r x1
         | Some n =>
-          if n <? 4294967296 then
+          if n <? UINT_LIMIT then
             match xpatch xc x1 q n with
             | XDangling => None
             | XOk x2 _ => restore_loop xc r x2     (* PatchPort's result is ignored *)
